@@ -56,7 +56,8 @@ def parseOp (ws : List String) : Option DOp :=
     match parseSwitch [a, b, c], parseSwitch [d, e, f] with
     | some x1, some x2 => some (.op (.tick [x1, x2]))
     | _, _ => none
-  | ["store", id, l, d, t] => some (.op (.store { id := natArg id, label := natArg l, down := parseBool d, tomb := parseBool t }))
+  -- meta state `t`: 0 Up, 1 Tombstone, 2 Offline; checkStoreStatus (and the property) only ask "tombstone?"
+  | ["store", id, l, d, t] => some (.op (.store { id := natArg id, label := natArg l, down := parseBool d, tomb := t == "1" }))
   | ["region", id, s, e, st, sid] =>
     some (.op (.region { id := natArg id, start := natArg s, end_ := natArg e, st := parseRState st, sid := natArg sid }))
   | ["fill", n, st, sid] => some (.op (.fill (natArg n) (parseRState st) (natArg sid)))
